@@ -1,8 +1,10 @@
 package props
 
 import (
+	"bytes"
 	"context"
 	"fmt"
+	"runtime"
 	"strings"
 	"sync"
 	"testing"
@@ -377,3 +379,99 @@ func mdKeys(kvs []kit.KV) []string {
 }
 
 func TestC04Foreign(t *testing.T) { checkProp(t, "C04", "foreign", genC04Foreign, execC04Foreign) }
+
+// ---- C04 concurrent: SetHeader from a second handler goroutine while the first message is on its way out ----
+
+type C04Conc struct {
+	Yields int  `json:"yields"` // scheduler yields between "the first send has started" and the SetHeader call
+	Ser    bool `json:"ser"`
+}
+
+func genC04Conc(t *rapid.T) C04Conc {
+	return C04Conc{Yields: rapid.IntRange(0, 20).Draw(t, "yields"), Ser: rapid.Bool().Draw(t, "ser")}
+}
+
+func execC04Conc(t *testing.T, c C04Conc) (v Verdict) {
+	var setErr error
+	setDone := false
+	var hdr metadata.MD
+	var hdrErr error
+	res := kit.Bubble(t, func() {
+		bg := context.Background()
+		svc := kit.NewSvc()
+		svc.Unary("busy", func(ctx context.Context, req []byte) ([]byte, error) { return []byte("busy-reply"), nil })
+		about := make(chan struct{})
+		svc.Stream("h", true, true, func(s grpcServerStream) error {
+			started := make(chan struct{})
+			var wg sync.WaitGroup
+			wg.Add(2)
+			go func() {
+				defer wg.Done()
+				close(started)
+				_ = kit.SendBytes(s, []byte("m1")) // parks: the connection's writer is busy
+			}()
+			go func() {
+				defer wg.Done()
+				<-started
+				for i := 0; i < c.Yields; i++ {
+					runtime.Gosched()
+				}
+				close(about)
+				setErr = s.SetHeader(metadata.Pairs("late", "x"))
+				setDone = true
+			}()
+			wg.Wait()
+			return nil
+		})
+		w := kit.NewWorld(kit.Topo{Kind: "direct", Serialize: c.Ser, Clients: 1}, svc, nil, nil)
+		l := w.Links[0]
+		l.B.Hold(func(r *kit.Rpc) bool { return bytes.Equal(unwrapBytes(r.GetBody().GetData()), []byte("busy-reply")) })
+		go func() { _, _ = kit.Invoke(bg, w.Conn(0), "busy", []byte("q")) }()
+		kit.Settle() // the writer goroutine is parked in the held reply write
+		cdone := make(chan struct{})
+		go func() {
+			defer close(cdone)
+			cs, err := w.Conn(0).NewStream(bg, kit.StreamDescFor(kit.KindBidi), kit.FullMethod("h"))
+			if err != nil {
+				hdrErr = err
+				return
+			}
+			hdr, hdrErr = cs.Header()
+			for {
+				if _, err := kit.RecvBytes(cs); err != nil {
+					break
+				}
+			}
+		}()
+		// no settle here: on a tree that serialises SetHeader against SendMsg the second goroutine queues
+		// for a mutex, which never counts as durably blocked
+		<-about
+		for i := 0; i < 20; i++ {
+			runtime.Gosched()
+		}
+		l.B.Hold(nil)
+		for _, h := range l.Held() {
+			h.Release()
+		}
+		kit.Settle()
+		<-cdone
+		w.Shutdown()
+		kit.Settle()
+	})
+	if res.Panic != nil {
+		v.failf("panic: %v\n%s", res.Panic, res.Stack)
+	}
+	if !setDone {
+		v.failf("SetHeader never returned")
+	} else if hdrErr != nil {
+		v.failf("Header() failed: %v", hdrErr)
+	} else if setErr == nil && len(hdr["late"]) != 1 {
+		v.failf("SetHeader returned nil while the first message was on its way out, but the header never reached the caller (got %v)", hdr)
+	} else if setErr != nil && len(hdr["late"]) != 0 {
+		v.failf("SetHeader failed (%v) but the header reached the caller", setErr)
+	}
+	v.Info = kit.CaseInfo{Labels: []string{"concurrent", fmt.Sprintf("sethdr_accepted=%v", setErr == nil)}, NonTrivial: true, Key: fmt.Sprintf("%+v", c), Sample: c}
+	return
+}
+
+func TestC04Conc(t *testing.T) { checkProp(t, "C04", "concurrent", genC04Conc, execC04Conc) }
